@@ -88,6 +88,7 @@ type violRec struct {
 type caseResult struct {
 	I       int               `json:"i"`
 	Key     string            `json:"key,omitempty"`    // identity of the executed input (distinct count)
+	Keys    []string          `json:"keys,omitempty"`   // same, for a batch of inputs
 	Counts  map[string]int64  `json:"counts,omitempty"` // counters to add up
 	Viol    []violRec         `json:"viol,omitempty"`
 	Engine  string            `json:"engine,omitempty"`
@@ -105,7 +106,7 @@ var workerStep func(step string)
 
 func reportStep(step string) {
 	if f := workerStep; f != nil {
-		f(step)
+		f(stepPrefix + step)
 	}
 }
 
